@@ -64,6 +64,7 @@ func genXLSX(r *hx.Rng) *pkg {
 	sids := perm(r, n+4)
 	sidBase := hx.Pick(r, []int{1, 1, 1, 2, 7, 100, 65530})
 	const tSheet = nsRel + "/worksheet"
+	pn := r.Fork(0x9c7e) // part names with percent signs (pctnames.go), own stream
 	var rels [][3]string
 	usedNames := map[string]bool{}
 	for k := 0; k < n; k++ {
@@ -92,6 +93,10 @@ func genXLSX(r *hx.Rng) *pkg {
 			rel, abs, outside = fmt.Sprintf("custom/sheet%d.xml", nums[k]), true, true
 		default:
 			rel = fmt.Sprintf("worksheets/Sheet_%c.xml", 'z'-byte(nums[k]))
+		}
+		if !legacy && pn.Chance(1, 7) {
+			// the ZIP item name is the part name as the target spells it, percent signs included
+			rel, outside = pctRel(pn, "worksheets", nums[k]+1), false
 		}
 		if outside {
 			d.Name = rel
@@ -156,6 +161,12 @@ func genXLSX(r *hx.Rng) *pkg {
 		p.addOOXMLTwins(r.Fork(0x7717), "xl", tSheet, usedNames, &rels, func(j int, t *part) {
 			t.ID = fmt.Sprintf("rId%d", ids[n+j]+1)
 			t.Title = fmt.Sprintf("%s %d", hx.Pick(r.Fork(uint64(0x7718+j)), sheetWords), (n+j)*7%10)
+			t.SheetID = sidBase + sids[n+j]
+		})
+		// a second member under the percent-DECODED name of a declared part (pctnames.go)
+		p.addPctDecodedTwins(pn.Fork(1), "xl", tSheet, usedNames, &rels, func(j int, t *part) {
+			t.ID = fmt.Sprintf("rId%d", ids[n+j]+1)
+			t.Title = fmt.Sprintf("%s %d", hx.Pick(pn.Fork(uint64(0x7718+j)), sheetWords), (n+j)*7%10)
 			t.SheetID = sidBase + sids[n+j]
 		})
 	}
